@@ -326,7 +326,7 @@ def main(argv):
                     worst, wp = dv, (i, j)
             rel = worst / scale if scale else 0.0
             stats["worst_pair_mismatch"] = max(stats["worst_pair_mismatch"], rel)
-            if rel > 1e-6 and nviol < 5:
+            if not (rel <= 1e-6) and nviol < 5:
                 nviol += 1
                 i, j = wp
                 ck.violation("solution:%s" % tag, "%s cell, %s, %s: listed pair (%d, %d) has potentials %.12g and %.12g (largest potential %.6g)%s"
